@@ -218,6 +218,10 @@ def run(ctx):
     from ..smgraph import Graph as _G9
     rule_product(ctx, _G9(aut), aut, rid="R09.9")
 
+    # ------------------------------------------------------------------ R09.10 (generic, scoped to this property's anchors)
+    from . import shared_mir as _smg
+    _smg.rule_named_plumbing(ctx, _mir, "C09", "R09.10", floor=27)
+
     ctx.not_decided += ["schedule-independence of pending(k) as a relation between two runs", "flush_remaining_input after each parse is checked under C01 (R01.4)"]
     return ("Static analysis of the tokenizer automaton extracted from the macro-expanded StateMachine trait "
             "(%d states, %d leaves): typestate/dataflow of the tag-scanner's hold-back marks over every path of the automaton; "
